@@ -156,7 +156,7 @@ func (c *codec) uncompressedBodyLength(header *Header, body *Body) (length int, 
 	} else if length, err = encoder.EncodedLength(body.Message, header.Version); err != nil {
 		return -1, fmt.Errorf("cannot compute message length: %w", err)
 	}
-	if header.Flags.Contains(primitive.HeaderFlagTracing) {
+	if header.Flags.Contains(primitive.HeaderFlagTracing) && body.Message.IsResponse() {
 		length += primitive.LengthOfUuid
 	}
 	if header.Flags.Contains(primitive.HeaderFlagCustomPayload) {
